@@ -179,25 +179,40 @@ class EvalSeams:
 
         self._patch(OptimizationGroup, "calculate", calc_wrapper)
 
-        orig_fill = dg.fill_item
+        # the remaining seams are optional fault sites: if a refactoring renamed one of them the site is simply
+        # unavailable (recorded), it must never turn into a harness error or a false alarm
+        self.unavailable = []
+        if hasattr(dg, "fill_item"):
+            orig_fill = dg.fill_item
 
-        def fill_wrapper(*a, **kw):
-            seams._site("fill_item")
-            return orig_fill(*a, **kw)
+            def fill_wrapper(*a, **kw):
+                seams._site("fill_item")
+                return orig_fill(*a, **kw)
 
-        self._patch(dg, "fill_item", fill_wrapper)
+            self._patch(dg, "fill_item", fill_wrapper)
+        else:
+            self.unavailable.append("fill_item")
 
         seen = set()
-        for name in known_megacomplex_names():
+        try:
+            names = known_megacomplex_names()
+        except Exception:  # noqa: BLE001
+            names = []
+            self.unavailable.append("megacomplex registry")
+        for name in names:
             cls = get_megacomplex(name)
             if cls in seen or "calculate_matrix" not in cls.__dict__:
                 continue
             seen.add(cls)
             self._patch(cls, "calculate_matrix", self._matrix_wrapper(cls.__dict__["calculate_matrix"]))
 
-        for key, fn in list(ep.SUPPORTED_RESIUDAL_FUNCTIONS.items()):
-            ep.SUPPORTED_RESIUDAL_FUNCTIONS[key] = self._residual_wrapper(fn)
-            self._undo.append((ep.SUPPORTED_RESIUDAL_FUNCTIONS, key, fn))
+        table = getattr(ep, "SUPPORTED_RESIUDAL_FUNCTIONS", None)
+        if isinstance(table, dict):
+            for key, fn in list(table.items()):
+                table[key] = self._residual_wrapper(fn)
+                self._undo.append((table, key, fn))
+        else:
+            self.unavailable.append("residual function table")
         return self
 
     def __exit__(self, *exc):
